@@ -127,6 +127,7 @@ def native_contract(integ, eft, case, v):
         ns.free()
 
 def replay(data):
+    if data.get('kind') == 'exit_step': return native_exit_step(data['vals'])
     if data.get('kind') == 'split': return native_split(data)
     return native_contract(data['integ'], data['eft'], data['case'], data['vals'])
 
@@ -175,7 +176,67 @@ def native_split(d):
         out.append([ns.particle(i).getbits(c) for i in range(3) for c in ('x', 'y', 'z', 'vx', 'vy', 'vz')] + [ns.getbits('t')]); ns.free()
     return out[0] != out[1], "native %s: integrate(%s) vs integrate(%s); integrate(%s): %s" % (d['cfg'], d['t2'], d['t1'], d['t2'], 'bits differ' if out[0] != out[1] else 'bit-identical')
 
+def run_exit_step(u):
+    """one call of the real reb_check_exit from an ARBITRARY state in the middle of the last-step protocol (status LAST_STEP, exact
+    finishing): arbitrary t, dt, tmax with the next step overshooting.  If it declares SUCCESS the time must be within the relative
+    tolerance 1e-12 |tmax| of the target (absolute 1e-12 only for |tmax| < 1e-188, the documented failsafe for tmax == 0); otherwise it
+    must schedule exactly the remaining interval."""
+    rep = Report(); direction = u['dir']; label = "reb_check_exit in LAST_STEP state dir=%+d " % direction
+    L = build.layout(); prover = Prover(t_inproc_ms=10000, use_external=False)
+    def run(ctx):
+        dom = Real(); I = new_interp(dom, ctx); I.concrete_env = True
+        sim = Sim(I); sim.add(m=1.0)
+        sim.set('integrator', L.enumerators['REB_INTEGRATOR_LEAPFROG']); sim.set('gravity', L.enumerators['REB_GRAVITY_NONE'])
+        t, dt, tmax = dom.fresh('t'), dom.fresh('dt'), dom.fresh('tmax')
+        sim.set('t', t); sim.set('dt', dt); sim.set('exact_finish_time', 1); sim.set('status', L.enumerators['REB_STATUS_LAST_STEP'] & 0xffffffff)
+        ctx.assume(dt > 0 if direction > 0 else dt < 0)
+        ctx.assume(t != tmax)
+        ctx.assume((t + dt >= tmax) if direction > 0 else (t + dt <= tmax))       # the next step would overshoot
+        lfd = I.mem.alloc(8, 'last_full_dt', 'harness', zero=True)
+        ret = I.call('@reb_check_exit', [sim.ptr, tmax, lfd])
+        return I, dom, sim, t, dt, tmax, ret
+    ex = Explorer(run, max_paths=64, timeout_ms=3000)
+    try: ex.explore()
+    except BoundExceeded as e: rep.bound_exceeded.append(label + str(e))
+    rep.queries += ex.nqueries; rep.solver_time += ex.qtime
+    for ctx, (I, dom, sim, t, dt, tmax, ret) in ex.results:
+        rep.paths += 1; rep.add_interp(I)
+        ob = Obligations(rep, prover, label + "path%d " % rep.paths)
+        pc = list(ctx.pc)
+        st = sim.get('status'); st = st - (1 << 32) if isinstance(st, int) and st >= (1 << 31) else st
+        def on_sat(model):
+            vals = {k: float(model_value(model, v)) for k, v in (('t', t), ('dt', dt), ('tmax', tmax))}
+            ok, detail = native_exit_step(vals)
+            return ok, 'C08:check_exit:last-step-tolerance', detail, dict(kind='exit_step', vals=vals)
+        ab = lambda x: z3.If(x >= 0, x, -x)
+        tiny = z3.RealVal('1.0001e-188')       # (the code's constants are binary64 roundings of 1e-12 and 1e-200: 1e-4 slack)
+        if st == L.enumerators['REB_STATUS_SUCCESS']:
+            ob.prove("SUCCESS is only declared within the relative tolerance of the target: |t - tmax| < 1e-12 |tmax| (absolute 1e-12 only if |tmax| < 1e-188)",
+                     z3.Or(ab(t - tmax) <= z3.RealVal('1.0001e-12') * ab(tmax), z3.And(ab(tmax) <= tiny, ab(t - tmax) <= z3.RealVal('1.0001e-12'))), pc, on_sat=on_sat, domain='REAL (linear arithmetic)')
+        else:
+            ob.prove("otherwise the remaining interval is scheduled: dt == tmax - t and the run continues", z3.And(dom.z(sim.get('dt')) == tmax - t, z3.BoolVal(isinstance(ret, int) and ret >= (1 << 31))), pc, on_sat=on_sat, domain='REAL (linear arithmetic)')
+        ob.witness("path", pc)
+    return rep
+
+def native_exit_step(vals):
+    N_ = nat(); L = N_.L; ns = N_.create()
+    try:
+        ns.add(m=1.0); ns.set('integrator', L.enumerators['REB_INTEGRATOR_LEAPFROG']); ns.set('gravity', L.enumerators['REB_GRAVITY_NONE'])
+        ns.set('t', vals['t']); ns.set('dt', vals['dt']); ns.set('exact_finish_time', 1); ns.set('status', L.enumerators['REB_STATUS_LAST_STEP'])
+        f = N_.lib.reb_check_exit; f.restype = ctypes.c_int; f.argtypes = [ctypes.c_void_p, ctypes.c_double, ctypes.POINTER(ctypes.c_double)]
+        lfd = ctypes.c_double(0.0)
+        f(ns.addr, vals['tmax'], ctypes.byref(lfd))
+        st = ns.get('status')
+        if st == L.enumerators['REB_STATUS_SUCCESS']:
+            d = abs(ns.get('t') - vals['tmax']); bad = not (d < 1.0001e-12 * abs(vals['tmax']) or (abs(vals['tmax']) < 1e-188 and d < 1e-12))
+            return bad, "native reb_check_exit(t=%r, dt=%r, tmax=%r) in LAST_STEP state declares SUCCESS with |t - tmax| = %.3e (relative %.3e)" % (vals['t'], vals['dt'], vals['tmax'], d, d / abs(vals['tmax']) if vals['tmax'] else float('inf'))
+        bad = ns.get('dt') != vals['tmax'] - vals['t']
+        return bad, "native reb_check_exit(t=%r, dt=%r, tmax=%r): status %d, dt set to %r" % (vals['t'], vals['dt'], vals['tmax'], st, ns.get('dt'))
+    finally:
+        ns.free()
+
 def worker(u):
+    if u.get('what') == 'exit_step': return run_exit_step(u)
     return run_split(u) if u.get('what') == 'split' else run_contract(u)
 
 def main():
@@ -190,6 +251,7 @@ def main():
                 us.append(dict(integ=integ, K=K, eft=eft, dir=d))
         us.append(dict(integ=integ, K=K, eft=1, dir=1, case='noop')); us.append(dict(integ=integ, K=K, eft=0, dir=1, case='noop'))
     us.append(dict(integ='LEAPFROG', K=K, eft=1, dir=1, case='noparticles'))
+    us.append(dict(what='exit_step', dir=1)); us.append(dict(what='exit_step', dir=-1))
     for cfg in ('leapfrog', 'whfast', 'saba'):
         us.append(dict(what='split', cfg=cfg, t1=0.025, t2=0.05))
         if tier == 'thorough': us.append(dict(what='split', cfg=cfg, t1=0.031, t2=0.1))
